@@ -482,6 +482,12 @@ def scenarios(tier, seed):
         ("indexed", "nll", [], [], False, False),
         ("hist", "nll", [], [], False, False),
         ("hist", "chi2_fast", [Yd], [], False, True),
+        ("indexed", "chi2_fast", [Yd, ("SR", "y", "model", True)], [], False, False),
+        # (one parameter fixed: ndf > 0, gof / ndf of the result dictionary is defined)
+        ("hist", "gauss-approximation", [Yd], [], True, False),
+        ("hist", "gauss-approximation", [], [], True, False),
+        ("indexed", "gauss-approximation", [Yd], [], True, False),
+        ("xy", "gauss-approximation", [Yd], [], True, False),
         ("unbinned", "nll", [], ["simple-abs"], False, False),
     ]
     for ftype, cost, srcs, cons, fx, lm in fits:
@@ -489,6 +495,9 @@ def scenarios(tier, seed):
                                                     "+".join(cons) or "noconstraint", fx, lm)
         S.append(Scenario(nm, sc_fit, family="fit/%s" % ftype, params=dict(ftype=ftype, cost=cost, sources=tuple(srcs), constraints=tuple(cons), fixed=fx, limited=lm)))
     for dens in (False, True):
+        # model-relative source on a histogram fit: its reference is the model scaled by the number of entries
+        if not (q and not dens):
+            S.append(Scenario("fit/hist/chi2_fast/SA+SRm/density-%s" % dens, sc_fit, family="fit/hist", params=dict(ftype="hist", cost="chi2_fast", sources=(Yd, ("SR", "y", "model", True)), constraints=(), fixed=False, limited=False, density=dens)))
         S.append(Scenario("fit/hist/nll/density-%s" % dens, sc_fit, family="fit/hist", params=dict(ftype="hist", cost="nll", sources=(), constraints=(), fixed=False, limited=False, density=dens)))
     if not q:
         for ftype, cost, srcs, cons, fx, lm in fits[:6]:
